@@ -137,6 +137,9 @@ class FileResolver:
                 if filepath.is_symlink():
                     # Symlinks are not followed during traversal (files or directories).
                     continue
+                if not filepath.is_file():
+                    # FIFOs, sockets and devices are not files to format (reading one may block).
+                    continue
                 if self._exceeds_max_size(filepath):
                     continue
                 if any(spec.match_file(filename) for spec in gitignore_specs):
